@@ -9,13 +9,15 @@
 (*   settled {running: [[id, address]...], snapshot: [[id, address]...]}       *)
 (* What C16 needs of the source: once membership is quiescent the snapshot     *)
 (* names exactly the nodes that are running, each with the address it has NOW. *)
-EXTENDS Naturals, Sequences, TLC, Json, IOUtils
+EXTENDS Naturals, Sequences, FiniteSets, TLC, Json, IOUtils
 
 Rec == ndJsonDeserialize(IOEnv.TRACE)
 VARIABLES l, bad
 
 SetOf(a) == { a[i] : i \in 1..Len(a) }
-Ok(e) == e.ev = "settled" => SetOf(e.snapshot) = SetOf(e.running)
+\* ... and the node's live-member counter (ClusterStatistics::num_live_members) says how many that is
+Ok(e) == e.ev = "settled" => /\ SetOf(e.snapshot) = SetOf(e.running)
+                             /\ e.live_counter = Cardinality(SetOf(e.running))
 
 Init == l = 1 /\ bad = <<>>
 Next == /\ l <= Len(Rec) /\ l' = l + 1
